@@ -8,6 +8,7 @@ import Gomacro.Drv.C01
 import Gomacro.Drv.Sem
 import Gomacro.Drv.C15
 import Gomacro.Drv.C03
+import Gomacro.Drv.C04
 /-! JSON-lines driver: one request object per line in, one reply per line out.
 Unknown ops are `bad-op`, never defaulted.  Core-only imports (links as an executable). -/
 open Lean Gomacro.Drv
@@ -28,7 +29,9 @@ def handlers : List (String × Handler) := [
   ("sem.encode", semEncode),
   ("c15.judge", c15Judge),
   ("c03.gen", c03Gen),
-  ("c03.check", c03Check)
+  ("c03.check", c03Check),
+  ("c04.gen", c04Gen),
+  ("c04.eval", c04Eval)
 ]
 
 def handleLine (line : String) : String :=
